@@ -42,6 +42,17 @@ def norm_ref_text(t):
     return t
 
 
+def sort_unscaled_pair(t):
+    """[r1+r2+d] with two unscaled registers, none of them ebp/esp: base and index roles are interchangeable."""
+    def f(m):
+        a, b_, rest = m.group(1), m.group(2), m.group(3) or ''
+        if a in ('ebp', 'esp') or b_ in ('ebp', 'esp'):
+            return m.group(0)
+        x, y = sorted((a, b_))
+        return '[%s+%s%s]' % (x, y, rest)
+    return re.sub(r'\[(e[a-ds][xipd])\+(e[a-ds][xipd])([+-]0x[0-9a-f]+)?\]', f, t)
+
+
 def drop_default_ds(t):
     """Remove a segment override that names the operand's default segment (ds, or ss for ebp/esp/bp bases):
     such a prefix is meaning-free and an assembler does not emit it."""
